@@ -72,3 +72,16 @@ Example C15_less_ex :
 Proof. vm_compute. reflexivity. Qed.
 Example C15_dom_ex : dom {| Value := two64 - 1; FractionDigits := 18; Negative := true |}.
 Proof. unfold dom; vm_compute; intuition discriminate. Qed.
+
+(* T3 (decimal64): printing a decimal64 value (signed 64-bit mantissa, 1..18 fraction digits) and
+   parsing the text back at the same precision never fails and returns a number with the same
+   mantissa and precision that is Equal to / denotes the same rational as the original; it is the
+   very same Number unless the original is -0 (which reads back as +0) *)
+From GY Require Import Proofs.NumberRoundtrip.
+Theorem C15_roundtrip_dec : forall n, dom_dec n ->
+  exists s n', String_ n = Ok s /\ ParseDecimal s (FractionDigits n) = Ok n' /\
+    Equal n' n = true /\ (val n' == val n)%Q /\
+    Value n' = Value n /\ FractionDigits n' = FractionDigits n /\ (Value n <> 0 -> n' = n).
+Proof. exact roundtrip_dec. Qed.
+Example C15_dom_dec_ex : dom_dec {| Value := two63; FractionDigits := 18; Negative := true |}.
+Proof. unfold dom_dec; vm_compute; intuition discriminate. Qed.
